@@ -21,10 +21,23 @@ def spec(name, layout, dst1, dst2, queue=True, skip=False, depth=None, **kw):
     return s
 
 
+def queued_spec(layout, dst1, dst2, depth):
+    """Starts with both pull requests in the queue; CI then reports on the
+    queue as a whole or fails single queue branches."""
+    return spec('c02-q-%s-queued' % layout, layout, dst1, dst2, depth=depth,
+                config={'layout': layout, 'queue': True, 'skip_queue': False,
+                        'options': BYPASS_REVIEW + ['bypass_build_status']},
+                init=[['open', PR1, dst1], ['open', PR2, dst2],
+                      ['eval_pr', 1], ['eval_pr', 2]],
+                statuses_int=[], statuses_q=['SUCCESSFUL', 'FAILED'],
+                per_q_ci=True)
+
+
 def specs(tier):
     if tier == 'quick':
         return [spec('c02-q-D2', 'D2', 'development/4.3', 'development/5.1',
                      depth=4),
+                queued_spec('D2', 'development/4.3', 'development/4.3', 3),
                 spec('c02-noq-S3', 'S3', 'stabilization/4.3.18',
                      'stabilization/4.3.18', queue=False, depth=4,
                      init=[['open', PR1, 'stabilization/4.3.18'],
@@ -32,6 +45,8 @@ def specs(tier):
                            ['eval_pr', 1], ['eval_pr', 2]])]
     return [spec('c02-q-D2', 'D2', 'development/4.3', 'development/5.1',
                  depth=8, statuses_q=['SUCCESSFUL', 'FAILED']),
+            queued_spec('D3', 'development/4.3', 'development/4.3', 5),
+            queued_spec('D3', 'development/4.3', 'development/5.1', 5),
             spec('c02-q-S3', 'S3', 'stabilization/4.3.18', 'development/4.3',
                  depth=7),
             spec('c02-noq-S3', 'S3', 'stabilization/4.3.18',
